@@ -21,6 +21,7 @@ import (
 	"sync"
 	"time"
 
+	"verif/corpus"
 	"verif/drive"
 	"verif/findings"
 )
@@ -310,6 +311,18 @@ func enumerate(thorough bool) []Config {
 			}
 		}
 	}
+	// (F) every sole-facility program (package corpus) x every target sequence of length <= 2 (3 in thorough):
+	// what one target's run leaves in the shared transpiler must not reach the next target's output, whatever
+	// single facility the program uses
+	for _, p := range corpusProgs {
+		seqs := targetSeqs(2)
+		if thorough {
+			seqs = targetSeqs(3)
+		}
+		for _, ts := range seqs {
+			out = append(out, Config{Targets: ts, Order: canonOrder(len(ts)), Spell: shortSpell(len(ts) + 2), File: "p.tsh", Prog: p.Name, Dir: "empty", Form: "abs"})
+		}
+	}
 	// (D) injected environment fault: the output path of one target is a directory
 	for _, ts := range targetSeqs(2) {
 		for _, ext := range []string{"sh", "bat"} {
@@ -375,8 +388,23 @@ type result struct {
 
 var tshBin string
 
+// corpusProgs: the sole-facility programs of package corpus (family F). No class-level expectation: whatever the
+// library returns for a target is what the command must write for it.
+var corpusProgs = func() []progClass {
+	var out []progClass
+	for _, p := range corpus.Tiny() {
+		out = append(out, progClass{Name: "tiny:" + p.Name, Kind: "file", Main: p.Src, Mixed: true})
+	}
+	return out
+}()
+
 func progByName(n string) progClass {
 	for _, p := range programs {
+		if p.Name == n {
+			return p
+		}
+	}
+	for _, p := range corpusProgs {
 		if p.Name == n {
 			return p
 		}
@@ -981,7 +1009,7 @@ func Run() int {
 		r.Set("exhaustive", false)
 		r.Set("cap_hit", "sweep stopped at the internal deadline")
 	}
-	r.Set("rule", "a case = one execution of the real tsh binary (built from /repo at check time) in a fresh tree; coordinates: arrangement of the pairs -i/-o/-t..., short/long spelling per pair, target sequence of length 1..3 (4 in thorough sweep B), input file name (5), program class (8: 2 accepted, lexical/syntax/type/conversion error, missing file, directory), output directory (empty / pre-populated with sentinel outputs), path form (absolute / relative), 70+ malformed option sets, 1 injected write fault; distinct by the full coordinate string; non-trivial: every case compares exit status, the full before/after content of the output directory against the library's bytes, and the input's bytes and mtime")
+	r.Set("rule", "a case = one execution of the real tsh binary (built from /repo at check time) in a fresh tree; coordinates: arrangement of the pairs -i/-o/-t..., short/long spelling per pair, target sequence of length 1..3 (4 in thorough sweep B), input file name (5), program class (8: 2 accepted, lexical/syntax/type/conversion error, missing file, directory), output directory (empty / pre-populated with sentinel outputs), path form (absolute / relative), 70+ malformed option sets, 1 injected write fault, plus (F) every sole-facility program of package corpus x every target sequence of length <= 2 (3 in thorough); distinct by the full coordinate string; non-trivial: every case compares exit status, the full before/after content of the output directory against the library's bytes, and the input's bytes and mtime")
 	r.Assumef("the library's result for (F, program, target) is computed in-process by the transpiler linked from the same /repo working tree, on the path of the first run that needs it and on a copy in another directory (the two must agree, else the case is counted unspecified), then reused for every run with the same F, program and target; std is copied from /repo/std next to both executables")
 	r.Assumef("on an error the property fixes only: non-zero exit status, no new or changed output for a failing target, input untouched; a requested target that did not fail may be written exactly or not at all; the text and the value of a non-zero status are not compared")
 	r.Assumef("a trailing switch without a value and a stray word are counted as bad options")
